@@ -87,7 +87,7 @@ def task_rules(names):
     import datetime
     import inspect
 
-    from mc.checks.c03 import SYN, _same_value, synthetic_tuples
+    from mc.checks.c03 import SYN, _int_alphabet, _same_value, synthetic_tuples
     from _gettsim.functions_loader import load_internal_functions
     from _gettsim.interface import _round_and_partial_parameters_to_functions
 
@@ -119,7 +119,7 @@ def task_rules(names):
             except Exception:  # noqa: BLE001
                 out.count("group_rule_partial_failed")
                 continue
-            args2, T = synthetic_tuples(func)
+            args2, T = synthetic_tuples(func, year=d.year)
             ann = func.__annotations__
             for t in T:
                 try:
@@ -129,7 +129,7 @@ def task_rules(names):
                     continue
                 for a in ind:
                     i = args2.index(a)
-                    for alt in SYN.get(ann.get(a), [0.0, 1.0, 235.85]):
+                    for alt in (_int_alphabet(a, d.year) if ann.get(a) is int else SYN.get(ann.get(a), [0.0, 1.0, 235.85])):
                         if alt == t[i]:
                             continue
                         t2 = t[:i] + (alt,) + t[i + 1:]
